@@ -8,6 +8,7 @@ pub mod c09;
 pub mod lin;
 pub mod schedprops;
 pub mod c10;
+pub mod c13;
 pub mod concprogs;
 pub mod c14;
 pub mod c15;
@@ -283,6 +284,10 @@ pub fn run_check(prop: &str, tier: &str) -> i32 {
             let mut pairs = c07::programs(Cfg::memory(), false);
             pairs.retain(|p| p.name.starts_with("pair-"));
             schedprops::run_programs(pairs, bound, 3000, budget * 0.1, &schedprops::judge_linearizable, Some(check), &["C13"], &mut report);
+            // labelled sampling supplement for windows between two adjacent atomic steps (see DESIGN §10)
+            if report.violations.is_empty() {
+                c13::stress_supplement(&mut report, if thorough { 20.0 } else { 3.0 });
+            }
         }
         _ => {
             eprintln!("unknown property {prop}");
